@@ -129,23 +129,72 @@ func c04ExecuteTxGates(c *rep.Ctx) {
 		c.Check("sign-account-match", "chain.executeTx|verified-account < "+shortName(an.FuncName(t.Fn)), eqPos, ok, "a transaction verified against a name owner/address executes only if that verified account equals the account the name resolves to now")
 	}
 
-	// the nonce stored is the field that was compared
+	// the nonce stored is the field that was compared.  The argument is resolved
+	// through once-defined locals (newNonce := txBody.GetNonce()) and must BE the
+	// Nonce field / GetNonce() of the body of the transaction being executed —
+	// an expression that merely contains it (GetNonce()+1) is not accepted.
+	// resetAccount calls whose nonce argument is nil store no nonce: that they
+	// must not end in an accepting return is decided by nonce-advance
+	// (c04_gap.go), which follows the helper; this rule keeps the clause
+	// "EVERY nonce value written to the sender in executeTx is the tx nonce"
+	// (nonce-advance only asks for one such write before the accepting return).
 	nonceF := c.Prog.LookupField("types", "TxBody", "Nonce")
+	var txParam types.Object
+	for i := 0; i < 8; i++ {
+		if o := f.ParamObj(i); o != nil {
+			if nt, isNamed := o.Type().(*types.Named); isNamed && nt.Obj().Name() == "Transaction" && nt.Obj().Pkg() != nil && strings.HasSuffix(nt.Obj().Pkg().Path(), "/types") {
+				txParam = o
+			}
+		}
+	}
+	if txParam == nil {
+		c.Undecide("nonce-stored", "chain.executeTx", "the parameter holding the transaction being executed (types.Transaction) was not found")
+	}
+	isTxNonce := func(e ast.Expr) bool {
+		if nonceF == nil || txParam == nil {
+			return false
+		}
+		e = c04GapResolve(g, info, e)
+		var base ast.Expr
+		switch x := e.(type) {
+		case *ast.SelectorExpr:
+			if an.FieldOf(info, x) != nonceF {
+				return false
+			}
+			base = x.X
+		case *ast.CallExpr:
+			sel, isSel := ast.Unparen(x.Fun).(*ast.SelectorExpr)
+			if !isSel || len(x.Args) != 0 || an.CalleeName(info, x) != "types.(*TxBody).GetNonce" {
+				return false
+			}
+			base = sel.X
+		default:
+			return false
+		}
+		// the body is tx.GetBody() of the executed transaction
+		base = c04GapResolve(g, info, base)
+		call, isCall := base.(*ast.CallExpr)
+		if !isCall || an.CalleeName(info, call) != "types.(Transaction).GetBody" {
+			return false
+		}
+		sel, isSel := ast.Unparen(call.Fun).(*ast.SelectorExpr)
+		return isSel && an.ObjOf(info, c04GapResolve(g, info, sel.X)) == txParam
+	}
 	for _, s := range g.CallsTo("state.(*AccountState).SetNonce") {
-		ok := len(s.Call.Args) == 1 && (an.FieldOf(info, s.Call.Args[0]) == nonceF || containsCallTo(info, s.Call.Args[0], "types.(*TxBody).GetNonce"))
-		c.Check("nonce-stored", "chain.executeTx|SetNonce", s.Call.Pos(), ok && nonceF != nil, "the sender nonce is advanced to the transaction's own nonce (the value validated as state nonce + 1)")
+		ok := len(s.Call.Args) == 1 && isTxNonce(s.Call.Args[0])
+		c.Check("nonce-stored", "chain.executeTx|SetNonce", s.Call.Pos(), ok, "the sender nonce is advanced to the transaction's own nonce (the value validated as state nonce + 1)")
 	}
 	for _, s := range g.CallsTo("chain.resetAccount") {
 		if len(s.Call.Args) != 3 {
 			continue
 		}
-		a := ast.Unparen(s.Call.Args[2])
+		a := c04GapResolve(g, info, s.Call.Args[2])
 		if tv, ok := info.Types[a]; ok && tv.IsNil() {
 			continue
 		}
 		ok := false
-		if u, isU := a.(*ast.UnaryExpr); isU && u.Op == token.AND && an.FieldOf(info, u.X) == nonceF {
-			ok = true
+		if u, isU := a.(*ast.UnaryExpr); isU && u.Op == token.AND {
+			ok = isTxNonce(u.X)
 		}
 		c.Check("nonce-stored", "chain.executeTx|resetAccount(nonce)", s.Call.Pos(), ok, "on a runtime error the sender nonce is advanced to the transaction's own nonce")
 	}
